@@ -87,6 +87,7 @@ func main() {
 		manifest  = flag.Bool("manifest", false, "write MANIFEST.json from the registry")
 		nocache   = flag.Bool("nocache", false, "ignore cached analysis results")
 		dumpcg    = flag.String("callers", "", "regexp over function names: print in-repo callers")
+		freeze    = flag.Bool("freeze-names", false, "record the identifiers of the current tree in cmd/vcheck/names.json (authoring step, followed by a rebuild)")
 		lint      = flag.Bool("lint", false, "print vacuous rows and unmatched atoms (authoring aid)")
 		vdir      = flag.String("verif", "", "verif directory (default: directory containing bin/)")
 	)
@@ -107,6 +108,17 @@ func main() {
 	}
 	if *manifest {
 		writeManifest()
+		return
+	}
+	if *freeze {
+		a, err := Load(*repo, "")
+		if err != nil {
+			fatal(2, "load: %v", err)
+		}
+		if err := freezeNames(a, verifDir); err != nil {
+			fatal(2, "freeze-names: %v", err)
+		}
+		fmt.Println("names.json written; rebuild the checker")
 		return
 	}
 	if *bootstrap != "" || *dumpcg != "" {
